@@ -31,9 +31,13 @@ class RepresentationBaseType(DashElement):
         prot = elt.findall('./dash:ContentProtection', self.xmlNamespaces)
         self.contentProtection = [ContentProtection(cp, self) for cp in prot]
         self.segmentTemplate = None
+        # the SegmentTemplate that is a child element of this element (a
+        # Representation might later inherit the one of its AdaptationSet)
+        self.own_segment_template = None
         templates = elt.findall('./dash:SegmentTemplate', self.xmlNamespaces)
         if len(templates):
             self.segmentTemplate = SegmentTemplate(templates[0], self)
+            self.own_segment_template = self.segmentTemplate
         self.segmentList = None
         seg_list = elt.findall('./dash:SegmentList', self.xmlNamespaces)
         self.segmentList = [SegmentListType(s, self) for s in seg_list]
@@ -55,4 +59,7 @@ class RepresentationBaseType(DashElement):
         await asyncio.gather(*futures)
 
     def children(self) -> list[DashElement]:
-        return self.event_streams
+        rv: list[DashElement] = list(self.event_streams)
+        if self.own_segment_template is not None:
+            rv.append(self.own_segment_template)
+        return rv
